@@ -139,6 +139,7 @@ func (language *Language) CompilerPasses() compiler.Passes {
 		&compiler.UndiscriminatedDisjunctionToAny{},
 		&compiler.DisjunctionToType{},
 		&compiler.RemoveIntersections{},
+		&compiler.RenameNumericEnumValues{},
 	}
 }
 
